@@ -19,6 +19,9 @@ def run(prop, names, work, seed):
     subprocess.run(["rsync", "-a", "--delete", "--exclude", "target", "--exclude", ".git", "--exclude", "/seed_out", REPO + "/", scratch + "/"], check=True)
     env = dict(os.environ, CARGO_NET_OFFLINE="true", CARGO_TARGET_DIR=os.path.join(VERIF, ".cache", "sweep-target"), VERIF_SEED=str(seed))
     for name in names:
+        if name.startswith("demo:"):
+            out.append(run_demo(name, scratch, env))
+            continue
         src = os.path.join(VERIF, "contracts", "crate_sweeps", name + ".rs")
         test = "verif_" + name.lower()
         shutil.copy(src, os.path.join(scratch, "tests", test + ".rs"))
@@ -44,3 +47,37 @@ def run(prop, names, work, seed):
         out.append(rec)
     shutil.rmtree(scratch, ignore_errors=True)
     return out
+
+
+def run_demo(name, scratch, env):
+    """`demo:<dir>`: the end-to-end demonstration kept under /verif/seeded/<dir>/demo_e2e.rs (a test file for the repository's own
+    harness: the real binary driven through real git in temporary repositories) is run as it stands; every libtest case is one
+    clause.  Used as regression check of repaired defects (all cases must pass) and as the concrete replay of recorded findings
+    (the failing cases are matched against known_findings.json).  BOUNDED: the histories written in that file, nothing more."""
+    d = name.split(":", 1)[1]
+    src = os.path.join(VERIF, "seeded", d, "demo_e2e.rs")
+    test = "verif_demo_" + re.sub(r"[^a-z0-9]+", "_", d.lower())
+    shutil.copy(src, os.path.join(scratch, "tests", test + ".rs"))
+    cmd = ["cargo", "test", "--offline", "--test", test, "--no-fail-fast", "--", "--test-threads", "1"]
+    rec = {"name": name, "cmd": " ".join(cmd), "fails": [], "evaluated": 0, "status": "?"}
+    t0 = time.time()
+    try:
+        p = subprocess.run(cmd, cwd=scratch, env=env, capture_output=True, text=True, timeout=int(os.environ.get("VERIF_SWEEP_TIMEOUT", "2400")))
+        txt = p.stdout + "\n" + p.stderr
+        cases = re.findall(r"^test (\S+) \.\.\. (ok|FAILED)", txt, re.M)
+        if cases and re.search(r"^test result: ", txt, re.M):
+            rec["evaluated"] = len(cases)
+            rec["status"] = "RAN"
+            for case, verdict in cases:
+                if verdict == "FAILED":
+                    m = re.search(r"---- %s stdout ----\n(.*?)(?:\n\n|\nstack backtrace)" % re.escape(case), txt, re.S)
+                    msg = (m.group(1) if m else "").strip().replace("\n", " | ")[:1500]
+                    rec["fails"].append({"fn": "crate:" + name, "clause": case, "input": "\"the history written in seeded/%s/demo_e2e.rs, case %s\"" % (d, case), "observed": "\"%s\"" % msg.replace('"', "'"), "expected": "the demonstration passes"})
+        else:
+            rec["status"] = "BUILD-OR-RUN-ERROR"
+            rec["trace"] = txt[-2500:]
+    except subprocess.TimeoutExpired:
+        rec["status"] = "TIMEOUT"
+    rec["wall_s"] = round(time.time() - t0, 1)
+    os.remove(os.path.join(scratch, "tests", test + ".rs"))
+    return rec
